@@ -494,6 +494,7 @@ pub fn execute(plan: &Plan, trace: bool) -> Exec {
         Some(Ok(w)) => {
             ex.nontrivial = true;
             ex.probe("uni_streams_decoded", w.rec.uni.len() as u64);
+            ex.fault("tiny_peer_stream_window_runs", (plan.raw_stream_window > 0) as u64);
             ex.probe("bidi_streams_decoded", w.rec.bidi.len() as u64);
             ex.probe("datagrams_decoded", w.rec.datagrams.len() as u64);
             ex.probe("session_id_varint_bytes", rc::varint_len(w.session_id) as u64);
